@@ -91,6 +91,7 @@ func ambientDecoderOptions(c *core.Ctx, oneIn int) bool {
 	mxj.DecodeSimpleValuesAsMap(r.Intn(2) == 0)
 	mxj.CastNanInf(r.Intn(2) == 0)
 	mxj.XMLEscapeChars(r.Intn(2) == 0)
+	mxj.LeafUseDotNotation(r.Intn(2) == 0) // documented for the Leaf* functions only
 	c.Count("ambient:decoder-options")
 	return true
 }
